@@ -149,9 +149,15 @@ pub fn load_known() -> KnownFindings {
     }
 }
 
+/// A finding is identified by property, family and shape (never wildcarded) and by operation and outcome class,
+/// which an entry may leave open ("*") when the finding is a whole input class (e.g. "any code longer than 32 bits").
 fn match_known<'a>(k: &'a KnownFindings, s: &Sig) -> Option<&'a Finding> {
     k.findings.iter().find(|f| {
-        f.property == s.property && f.family == s.family && f.op == s.op && f.class == s.class && f.shape == s.shape
+        f.property == s.property
+            && f.family == s.family
+            && f.shape == s.shape
+            && (f.op == "*" || f.op == s.op)
+            && (f.class == "*" || f.class == s.class)
     })
 }
 
@@ -450,6 +456,7 @@ pub fn run_batch(exe: &Path, prop: &str, tier: Tier, seed: u64, total: u64, work
             let memory_fault = ["signal_11", "signal_7", "signal_4", "signal_6"].contains(&desc.as_str());
             match (memory_fault, case_line.and_then(|l| serde_json::from_str::<Case>(&l[5..]).ok())) {
                 (true, Some(case)) => {
+                    let case_for_shape = case.clone();
                     br.viols.push((
                         r,
                         case,
@@ -458,8 +465,8 @@ pub fn run_batch(exe: &Path, prop: &str, tier: Tier, seed: u64, total: u64, work
                                 property: prop.to_string(),
                                 family: "process".into(),
                                 op: "run".into(),
-                                class: format!("died:{desc}"),
-                                shape: "not_reproducible_in_isolation".into(),
+                                class: format!("died:{desc}:not_reproducible_in_isolation"),
+                                shape: cases::death_shape(&case_for_shape),
                             },
                             detail: format!("the worker process died ({desc}) while executing run {r}; the same run completes when executed alone in a fresh process, i.e. the fault depends on heap state left by earlier runs (undefined behaviour in unchecked code)"),
                         },
@@ -484,7 +491,7 @@ pub fn run_batch(exe: &Path, prop: &str, tier: Tier, seed: u64, total: u64, work
                     family: "process".into(),
                     op: "run".into(),
                     class: format!("died:{desc2}"),
-                    shape: "general".into(),
+                    shape: cases::death_shape(&case),
                 };
                 br.viols.push((
                     r,
@@ -753,7 +760,7 @@ pub fn check_main(prop: &str, tier: Tier, extra: &dyn Fn(Tier, u64, u64, &BTreeM
         let mcase = cases::finalize(&mcase, &detail);
         // does the explicit case reproduce every time? (it does unless a nondeterminism source lies outside the seams)
         let mut attempts = 1u32;
-        if profile != "external" {
+        if profile != "external" && v.sig.family != "process" {
             let hits = (0..4).filter(|_| exec_in_child(&exe, &mcase).iter().any(|x| x.sig == v.sig)).count();
             if hits < 4 {
                 attempts = 400;
